@@ -14,7 +14,7 @@ Reading guide (definitions in Code/Pycode.lean and Code/PycodeWF.lean):
   `renders W v`     `render` returns instead of raising SerializerError: no
                     outermost name belongs to classes of two modules
 -/
-import XsdataModel.Proofs.Pycode
+import XsdataModel.Proofs.PycodeLit
 
 namespace Props.C18
 open Py Xs.Code
@@ -55,7 +55,32 @@ theorem qname_escapes_surrogates :
     Tables.qnameEscSurrogates = [0xD800, 0xDBFF, 0xDC00, 0xDFFF].map escapeCp := by
   decide
 
+/-- `repr()` of the probe strings and bytes, as the interpreter prints them
+today, is what the model computes (quote choice, `\\x`/`\\u`/`\\U` escapes, the
+printability table) -/
+theorem repr_probes :
+    Tables.strReprProbes.all (fun p => pyReprStr tblPrintable p.1 == p.2) = true ∧
+    Tables.bytesReprProbes.all (fun p => pyReprBytes p.1 == p.2) = true := by
+  decide +kernel
+
 /-! ## What holds of the code as it is -/
+
+/-- **str_repr_roundtrips**: for every string of scalar values and *every*
+printability table, the parser reads `repr(s)` — whichever quote it picked,
+with `\\x`, `\\u`, `\\U` escapes for what it found unprintable — back as `s`.
+This discharges the hypothesis `domOK` makes about the `repr` of a `str`. -/
+theorem str_repr_roundtrips (pr : Char → Bool) (s : Str) : decodeStrLit (pyReprStr pr s) = some s :=
+  decodeStrLit_pyReprStr pr s
+
+/-- **bytes_repr_roundtrips**: likewise for `repr(b)` of any bytes value -/
+theorem bytes_repr_roundtrips (bs : List Nat) (h : ∀ b ∈ bs, b < 256) :
+    decodeBytesLit (pyReprBytes bs) = some bs :=
+  decodeBytesLit_pyReprBytes bs h
+
+example : decodeStrLit (pyReprStr tblPrintable (cs!"a'b\"c\\\n" ++ [Char.ofNat 0x80, Char.ofNat 0xE9, Char.ofNat 0x2028, Char.ofNat 0xE0001]))
+    = some (cs!"a'b\"c\\\n" ++ [Char.ofNat 0x80, Char.ofNat 0xE9, Char.ofNat 0x2028, Char.ofNat 0xE0001]) ∧
+    decodeBytesLit (pyReprBytes [97, 39, 0, 255, 92]) = some [97, 39, 0, 255, 92] := by decide +kernel
+
 
 /-- **qname_text_roundtrips**: whatever the text of a QName — quotes,
 backslashes, control characters, any Unicode scalar value — the Python parser
